@@ -306,7 +306,7 @@ Qed.
    Renamings: [renp] pairwise dictionary, [renl] candidate-keyed dictionary, [renkd] result dictionary with Tie keys,
    [renv] ranked profile (shared ranks member by member), [renap] approval profile, [rens] score profile. *)
 From VL Require Import Model.Cardinal Proofs.Equivariant Proofs.CondorcetRename_proofs Proofs.QDRename_proofs Proofs.STVRename_proofs
-     Proofs.CardinalRename_proofs Proofs.PAVRename_proofs.
+     Proofs.CardinalRename_proofs Proofs.PAVRename_proofs Proofs.ApprovalOrder_proofs.
 From Coq Require Import Lia.
 Close Scope Q_scope.
 Close Scope Z_scope.
@@ -414,6 +414,24 @@ Theorem C10_rename_pav : forall f, injective f -> forall votes n,
   ares_equiv (ren_ares f (pav votes n)) (pav (renap f votes) n).
 Proof. intros f Hf votes n. exact (pav_rename f Hf votes n). Qed.
 
+(* ---- ballot order for the approval rules (Proofs/ApprovalOrder_proofs.v): ProportionalApproval and
+   SequentialProportionalApproval return the SAME answer - winners in the same order, the same refusal (tied alternatives /
+   tie in a round) - whatever the insertion order of the approval profile; no hypothesis (weights of any sign, repeated
+   ballots, repeated candidates inside a ballot) *)
+Theorem C10_pav_order : forall votes votes' n, Permutation votes votes' -> pav votes' n = pav votes n.
+Proof. exact ApprovalOrder_proofs.pav_order. Qed.
+
+Theorem C10_spav_order : forall votes votes' n, Permutation votes votes' -> spav votes' n = spav votes n.
+Proof. exact ApprovalOrder_proofs.spav_order. Qed.
+
+Example C10_approval_order_example :
+  let v := [([1; 2]%positive, 3#1); ([2; 3]%positive, 2#1); ([3]%positive, 2#1); ([1; 4]%positive, 1#2)]%Q in
+  pav v 2 = AR_ok [Cand 2; Cand 3]%positive /\ pav (rev v) 2 = AR_ok [Cand 2; Cand 3]%positive /\
+  spav v 3 = Some [2; 3; 1]%positive /\ spav (rev v) 3 = Some [2; 3; 1]%positive /\
+  spav_round v [] = [(1%positive, 7#2); (2%positive, 5#1); (3%positive, 4#1); (4%positive, 1#2)]%Q /\
+  map fst (spav_round (rev v) []) = [1; 4; 3; 2]%positive.
+Proof. vm_compute. repeat split; reflexivity. Qed.
+
 (* "f : C -> C injective" is no restriction with respect to "injective on the candidates present": a function injective on a
    finite set S agrees on S with a globally injective one (and renaming an input only applies f to the candidates present) *)
 Theorem C10_rename_injective_extension : forall (f : C -> C) (S : list C),
@@ -499,3 +517,5 @@ Print Assumptions C10_pav_iteration_order.
 Print Assumptions C10_rename_pav.
 Print Assumptions C10_rename_pav_exact_refuted.
 Print Assumptions C10_rename_injective_extension.
+Print Assumptions C10_pav_order.
+Print Assumptions C10_spav_order.
